@@ -81,7 +81,11 @@ def add_metas(doc, dec, enc):
                          "<meta charset=utf-16le>"])
         head[4].insert(dec.below(len(head[4]) + 1), ["e", H, dec.pick(["script", "style"]), [], [["t", fake]]])
         placements.append("fake-in-rawtext")
-    if dec.below(5) == 0:
+    if dec.below(12) == 0:
+        # more than one 10240-byte stream read before the first declaration
+        doc["pre"].append(["c", " pad " * (2050 + dec.below(8) * 512)])
+        placements.append(">10240-before-head")
+    elif dec.below(5) == 0:
         doc["pre"].append(["c", " pad " * 230])
         placements.append(">1024-before-head")
     elif dec.below(6) == 0:
@@ -149,6 +153,15 @@ def model(fl, enc):
     return out
 
 
+class _ReadOnly(object):
+    def __init__(self, data):
+        import io
+        self._b = io.BytesIO(data)
+
+    def read(self, n=-1):
+        return self._b.read(n)
+
+
 @guarded(60)
 def check_case(case):
     import webencodings
@@ -180,7 +193,16 @@ def check_case(case):
     classes = ["enc:" + want_name] + ["place:" + x for x in (case.get("placements") or [])] + (["unencodable-text"] if unenc else [])
     p = h5.parser("etree", True, full_tree=True)
     try:
-        r2 = p.parse(out)
+        # the bytes as bytes, as a seekable stream and as a stream that can only be read (a socket, a pipe)
+        how = case.get("source", "bytes")
+        if how == "bytesio":
+            import io
+            src = io.BytesIO(out)
+        elif how == "stream":
+            src = _ReadOnly(out)
+        else:
+            src = out
+        r2 = p.parse(src)
     except Exception as e:
         return Verdict("fail", "parsing the encoded output raised %s" % type(e).__name__, "reparse-exception", nontrivial=nontrivial)
     got_enc = p.documentEncoding
@@ -262,8 +284,9 @@ def run_shard(desc, seed, tier):
         enc = dec.pick(labels)
         doc = G.decode_document(data, size=30, always_doctype=True)
         placements = add_metas(doc, dec, enc)
-        case = {"doc": doc, "encoding": enc, "omit": bool(dec.below(2)), "walker": dec.pick(["etree", "dom"]), "placements": placements}
+        case = {"doc": doc, "encoding": enc, "omit": bool(dec.below(2)), "walker": dec.pick(["etree", "dom"]), "placements": placements,
+                "source": dec.pick(["bytes", "bytes", "bytesio", "stream", "stream"])}
         acc.add(case, check_case(case), sample={"markup": short(G.writer(doc), 300), "encoding": enc})
-    drive(st.tuples(sized_binary(20, 200), st.binary(min_size=24, max_size=24)), fn, desc["n"], seed)
+    drive(st.tuples(sized_binary(20, 200), st.binary(min_size=26, max_size=26)), fn, desc["n"], seed)
     acc.extra["labels_used"] = len(labels)
     return acc
